@@ -139,6 +139,13 @@ func VP_C15_PLYValue() {
 func VP_C15_PLYStream() {
 	types := []PLYPropertyType{PLYPropertyTypeFloat, PLYPropertyTypeUchar, PLYPropertyTypeShort, PLYPropertyTypeDouble}
 	format := []PLYFormat{PLYFormatBinaryLittle, PLYFormatBinaryBig}[vp.Param("big")]
+	if vp.Param("cap") == 1 {
+		// lists longer than the pre-allocation cap (source cut: the cap is a
+		// variable) must still be read completely
+		old := maxPreallocate
+		maxPreallocate = 1
+		defer func() { maxPreallocate = old }()
+	}
 	c1, c2, c3 := vp.Choice("count1", 3), vp.Choice("count2", 3), vp.Choice("count3", 2)
 	h := &PLYHeader{Format: format, Elements: []*PLYElement{
 		{Name: "vertex", Count: int64(c1), Properties: []*PLYProperty{
